@@ -115,6 +115,20 @@ ROUND4 = {
 }
 for _k, _v in ROUND4.items():
     CHECKS[_k]["text"] += _v
+ROUND5 = {
+ "C01": " Round 5: cross-lists C03.tx-apply-total.",
+ "C02": " Round 5: cross-lists C13.derive (an ATR-typed transaction outside the commitment mints).",
+ "C03": " Round 5: C03.tx-apply-total - every input and output of every transaction type is applied in both directions (no early exit, no thinning adaptor).",
+ "C04": " Round 5: C04.unwind-nonempty - wind_chain hands back an Unwind continuation only when there is something to unwind.",
+ "C05": " Round 5: C05.density-window - the ancestor walk of the density helper covers exactly DENOMINATOR - 1 blocks (loop-count algebra).",
+ "C06": " Round 5: C06.root-recomputed - generate_merkle_root returns the stored header root only to lite clients.",
+ "C08": " Round 5: C08.winner-first-match - the lottery winner is found by a first-match search, not a binary search over a repeating key.",
+ "C10": " Round 5: C10.no-recursion - decoder bodies form an acyclic call graph.",
+ "C11": " Round 5: cross-lists C14.reserve / release-only-removed (a refused transaction leaves no reservations).",
+ "C13": " Round 5: cross-lists C03.tx-apply-total.",
+}
+for _k, _v in ROUND5.items():
+    CHECKS[_k]["text"] += _v
 PENDING = "check not built yet in this round (planned in DESIGN.md §4); not claimed until it lands"
 
 def main():
